@@ -186,7 +186,7 @@ func runC15Join(c *Ctx) {
 				onTrue := b.Preds[0].Succs[0] == b
 				okGuard := false
 				if bo, ok := iff.Cond.(*ssa.BinOp); ok {
-					if ln, ok := bo.X.(*ssa.Call); ok && calleeName(&ln.Call) == "(*strings.Builder).Len" && ln.Call.Args[0] == buf {
+					if ln, ok := bo.X.(*ssa.Call); ok && calleeName(&ln.Call) == "(*strings.Builder).Len" && sameSSAValue(ln.Call.Args[0], buf) {
 						k, isK := constInt(bo.Y)
 						switch {
 						case isK && k == 0 && (bo.Op == token.GTR || bo.Op == token.NEQ) && onTrue:
@@ -290,4 +290,29 @@ func runC15Join(c *Ctx) {
 		}
 		c.Check(len(bad) == 0, "C15-JOIN", fnName(fn), "after-label", fn.Pos(), fmt.Sprintf("%d cuts at Index(clause,L)+len(L)", nSl), uniqJoin(bad, 2))
 	}
+}
+
+
+// sameSSAValue: the same SSA value, or two loads of one local variable cell that is assigned
+// exactly once (a local captured by a closure is lowered to such a cell).
+func sameSSAValue(a, b ssa.Value) bool {
+	if a == b {
+		return true
+	}
+	la, ok1 := a.(*ssa.UnOp)
+	lb, ok2 := b.(*ssa.UnOp)
+	if !ok1 || !ok2 || la.Op != token.MUL || lb.Op != token.MUL || la.X != lb.X {
+		return false
+	}
+	al, ok := la.X.(*ssa.Alloc)
+	if !ok {
+		return false
+	}
+	stores := 0
+	for _, r := range refs(al) {
+		if st, ok := r.(*ssa.Store); ok && st.Addr == al {
+			stores++
+		}
+	}
+	return stores == 1
 }
